@@ -98,27 +98,27 @@ class ExcelType:
 
     def __lt__(self, other):
         other = ExcelType.cast_from_native(other)
-        return Boolean(self._sort_key(other) < other._sort_key(self))
+        return Boolean(bool(self._sort_key(other) < other._sort_key(self)))
 
     def __le__(self, other):
         other = ExcelType.cast_from_native(other)
-        return Boolean(self._sort_key(other) <= other._sort_key(self))
+        return Boolean(bool(self._sort_key(other) <= other._sort_key(self)))
 
     def __eq__(self, other):
         other = ExcelType.cast_from_native(other)
-        return Boolean(self._sort_key(other) == other._sort_key(self))
+        return Boolean(bool(self._sort_key(other) == other._sort_key(self)))
 
     def __ne__(self, other):
         other = ExcelType.cast_from_native(other)
-        return Boolean(self._sort_key(other) != other._sort_key(self))
+        return Boolean(bool(self._sort_key(other) != other._sort_key(self)))
 
     def __gt__(self, other):
         other = ExcelType.cast_from_native(other)
-        return Boolean(self._sort_key(other) > other._sort_key(self))
+        return Boolean(bool(self._sort_key(other) > other._sort_key(self)))
 
     def __ge__(self, other):
         other = ExcelType.cast_from_native(other)
-        return Boolean(self._sort_key(other) >= other._sort_key(self))
+        return Boolean(bool(self._sort_key(other) >= other._sort_key(self)))
 
     def __int__(self):
         try:
